@@ -1,5 +1,6 @@
 #!/bin/bash
 # Runs every stored seed against the check of its property (and extra checks named in tools/seed_extra.txt)
+# (fail-fast: harnesses after the first one that reports a violation are skipped; random-input self-check off)
 # on the scratch worktree /tmp/wt2; writes $D/seeded/RESULTS.md and fills detected_by in each meta.json.
 # Sharding: SHARD=i NSHARD=n runs every n-th seed (own worktree SEED_WT) and writes RESULTS.md.part<i>; tools/seed_matrix_par.sh merges.
 WT=${SEED_WT:-/tmp/wt2}
@@ -20,7 +21,7 @@ for d in $D/seeded/*/; do
   for c in $checks; do
     git -C $WT checkout -q -- . ; git -C $WT clean -fdq
     if ! git -C $WT apply $d/patch.diff 2>/dev/null; then echo "| $s | $c | - | patch does not apply to current HEAD |" >> $OUT.tmp; continue; fi
-    VERIF_REPO=$WT timeout 3000 $D/check $c quick > /tmp/matrix-$s-$c.log 2>&1; rc=$?
+    VERIF_FAILFAST=1 VERIF_NO_SAMPLE=1 VERIF_REPO=$WT timeout 3000 $D/check $c quick > /tmp/matrix-$s-$c.log 2>&1; rc=$?
     v=$(grep -m1 'violation:' /tmp/matrix-$s-$c.log | sed 's/^ *violation: //' | cut -c1-160 | tr '|' '/')
     echo "| $s | $c | $rc | $v |" >> $OUT.tmp
     [ $rc -eq 1 ] && det="$det $c"
